@@ -52,6 +52,31 @@ class SymStr:
     def is_empty_model(self, ctx):
         return b_not(b_or(*[g for g, _ in self.ents]))
 
+    def eq_model(self, ctx, other):
+        from mirsym.models import as_str
+        other = as_str(ctx, other)
+        if isinstance(other, StrV):
+            other = SymStr(tuple((True, CI(ord(c), 8)) for c in other.s))
+        if not isinstance(other, SymStr):
+            raise Unsupported('byte string compared with %r' % (other,))
+        n = max(len(self.ents), len(other.ents))
+        la, a = self.bytes_at(n)
+        lb, b = other.bytes_at(n)
+        return z3.And(la == lb, *[x == y for x, y in zip(a, b)])
+
+    def as_bytes_model(self, ctx):
+        if not all(g is True for g, _ in self.ents):
+            raise Unsupported('as_bytes of a string of symbolic length')
+        return ctx.ex.alloc(ctx.st, Seq.of([b for _, b in self.ents]))
+
+    def bytes_model(self, ctx):
+        from mirsym.models import IterV
+        return IterV(self.ents)
+
+    def chars_model(self, ctx):
+        from mirsym.models import IterV
+        return IterV(tuple((g, CI(b.v, 32) if isinstance(b, CI) else z3.ZeroExt(24, bv(b))) for g, b in self.ents))
+
     def bytes_at(self, maxlen):
         """(length term (Int), [byte term at position k for k < maxlen] (BV8; 0 beyond the end))"""
         cnt = z3.IntVal(0)
